@@ -148,3 +148,83 @@ def listing(root):
             pth = os.path.join(dirpath, name)
             out[os.path.relpath(pth, root)] = os.path.getsize(pth)
     return out
+
+
+# ------------------------------------------------------------------------------------------
+# time module: every deadline in the system must read the simulated clock
+# ------------------------------------------------------------------------------------------
+class LogicalTime:
+    """Stand-in for the `time` module inside ampycloud modules. The clock is logical: 1 ms per
+    line event executed by *any* worker of the active simulation (so a parked worker's clock
+    advances while the others run), plus 1 ms per reading. sleep() advances it without blocking.
+    The pinned tree reads no clock in its processing path; a change that adds a timeout or a
+    deadline becomes deterministic - and replayable - instead of depending on machine load."""
+
+    def __init__(self):
+        import time as _time
+        self._real = _time
+        self.reads = 0
+        self.offset = 0.0
+
+    def _now(self):
+        from . import threads
+        self.reads += 1
+        sim = threads.ACTIVE
+        steps = sim.gstep if sim is not None else 0
+        return 1.0e6 + self.offset + 0.001 * (steps + self.reads)
+
+    def monotonic(self):
+        return self._now()
+
+    def perf_counter(self):
+        return self._now()
+
+    def time(self):
+        return 1.7e9 + self._now()
+
+    def process_time(self):
+        return self._now()
+
+    def monotonic_ns(self):
+        return int(self._now() * 1e9)
+
+    def time_ns(self):
+        return int(self.time() * 1e9)
+
+    def perf_counter_ns(self):
+        return int(self._now() * 1e9)
+
+    def sleep(self, secs):
+        self.offset += max(0.0, float(secs))
+
+    def __getattr__(self, name):        # everything else (strftime, gmtime, ...) is the real one
+        return getattr(self._real, name)
+
+
+LOGICAL_TIME = LogicalTime()
+
+
+def install_logical_time():
+    """Replace the `time` module (and functions imported from it) in every loaded ampycloud
+    module by the logical clock. Returns the number of bindings replaced."""
+    import time as _time
+    import ampycloud  # noqa: F401  (the processing modules must be loaded before they are patched)
+    fns = {getattr(_time, n): n for n in ('time', 'monotonic', 'perf_counter', 'process_time',
+                                          'sleep', 'monotonic_ns', 'time_ns', 'perf_counter_ns')}
+    count = 0
+    for name, mod in list(sys.modules.items()):
+        if mod is None or not (name == 'ampycloud' or name.startswith('ampycloud.')):
+            continue
+        for attr, val in list(vars(mod).items()):
+            if val is _time:
+                setattr(mod, attr, LOGICAL_TIME)
+                count += 1
+            else:
+                try:
+                    hit = fns.get(val)
+                except TypeError:
+                    hit = None
+                if hit:
+                    setattr(mod, attr, getattr(LOGICAL_TIME, hit))
+                    count += 1
+    return count
